@@ -933,6 +933,10 @@ class Converter:
         left, right = self._cast_like_binary_expression(
             op, self._translate_expr(node.left), self._translate_expr(node.right)
         )
+        if isinstance(node.op, ast.Mod) and not attrs:
+            # Mod on floating point tensors requires fmod=1 (this is what eager mode uses).
+            if any(x.dtype is not None and x.dtype.is_floating_point() for x in (left, right)):
+                attrs = [ir.AttrInt64("fmod", 1)]
         return op, [left, right], attrs
 
     def _translate_unary_op_expr(self, node):
